@@ -167,7 +167,7 @@ package keygen
 
 //@ define kgChResEc(round, ch, Vc) = (isnil(sentf(ch, 0, "unWrappedErr")) ==> (kgRow(round, sentf(ch, 0, "pjVs")) && arr(sentf(ch, 0, "pjVs")) != arr(Vc)))
 //@ func (*round3).Start
-//@   deadpoints 4
+//@   deadpoints 6
 //@   note dead: the two `len(culprits) > 0` returns (nothing is appended any more since fix 95e34fe returns at the first bad sum) and the error branch of NewECPoint on the already validated Vc[0]
 //@   props C06 C05 C03
 //@   requires round != nil && round.round2 != nil && round.round2.round1 != nil && round.round2.round1.base != nil && ecKgWF(round)
